@@ -151,6 +151,15 @@ func (e *Engine) intrinsic(fr *frame, name string, args []value) (value, bool) {
 		return nil, true
 	case "vSkip":
 		panic(pathAbort{"vSkip: " + str(0)})
+	case "vClockSec":
+		// symbolic wall clock: base second in [0, 2^40], nanosecond in [0, 1e9)
+		base := e.fresh("clock_sec", 64)
+		ns := e.fresh("clock_nsec", 64)
+		e.assume(tOp("bvule", 0, 0, base, bvConst(1<<40, 64)))
+		e.assume(tOp("bvult", 0, 0, ns, bvConst(1000000000, 64)))
+		e.nowSet = true
+		e.nowSec, e.nowNsec = fromTerm(types.Int64, base), fromTerm(types.Int64, ns)
+		return e.nowSec, true
 	case "vNow":
 		e.nowSet = true
 		e.nowSec, e.nowNsec = args[0], args[1]
